@@ -182,6 +182,10 @@ def run(index, tier="quick", seed=0) -> Result:
     if n < 5:
         raise AnalysisError("fewer than 5 (class, implementation) pairs")
     from ..parallel import report as _copy1
+    from ..mean1 import check as _mean1
+    for cn_ in ("Polygon", "ConvexPolygon", "Polyhedron", "ConvexPolyhedron"):
+        _mean1(res, index, cn_, ("compute_form_factor_amplitude",), "the amplitude is an integral over the shape: a reference point that is not "
+               "cancelled exactly shifts every phase")
     from ..frame3 import check as _frame3
     for cn_ in ("Polygon", "ConvexPolygon"):
         _frame3(res, index, cn_, ("compute_form_factor_amplitude",))
